@@ -152,6 +152,20 @@ def wl_bloom(ctx, rng, case):
         same(ctx, other_before, state_bloom(other), "the other operand of a set operation")
         ctx.count("read_batches")
         ctx.count("read_only_calls", len(done))
+        # ---- the filter as both operands: the result is another object that owns its storage
+        for name in ("union", "intersection"):
+            r = getattr(f, name)(f)
+            if r is not None and r.elements_added >= 0:
+                r.add("only-in-the-result")
+                same(ctx, before, state_bloom(f, path), f"{case.desc['cls']} after a.{name}(a) and an add on the RESULT")
+                r.clear()
+                same(ctx, before, state_bloom(f, path), f"{case.desc['cls']} after a.{name}(a) and a clear of the RESULT")
+            del r
+        import gc
+
+        gc.collect()
+        same(ctx, before, state_bloom(f, path), f"{case.desc['cls']} after the results of a.union(a) / a.intersection(a) were dropped")
+        ctx.count("self_operand_checks")
         # ---- clear() vs fresh
         f.clear()
         case.op("clear")
